@@ -253,17 +253,19 @@ func streamHTTP(seed uint64, n int, driver string) (*Summary, error) {
 		mp := mv.issueKeys(true, "code,path,dtype,msg", nil) + " " + mv.dest.String()
 		if ip != mp {
 			sum.addMismatch("C15", Mismatch{Case: lines[i], Impl: impls[i], Model: modelLine, What: fmt.Sprintf("model reads source %s; projection impl=%s model=%s", src, ip, mp)})
-			if src == "json" || src == "form" {
-				// the record in the body, decoded by the front end the model (and the documentation) selects, gives another result (C14)
-				sum.addMismatch("C14", Mismatch{Case: lines[i], Impl: impls[i], Model: modelLine, What: fmt.Sprintf("the %s body through zhttp does not give what the same record gives; projection impl=%s model=%s", src, ip, mp)})
+			// the record, presented through the front end the model (and the documentation) selects, gives another result (C14)
+			sum.addMismatch("C14", Mismatch{Case: lines[i], Impl: impls[i], Model: modelLine, What: fmt.Sprintf("the %s source through zhttp does not give what the same record gives; projection impl=%s model=%s", src, ip, mp)})
+			if iv.issueKeys(true, "path", nil) != mv.issueKeys(true, "path", nil) {
+				// issues filed under other keys than the source's tags name (C10)
+				sum.addMismatch("C10", Mismatch{Case: lines[i], Impl: impls[i], Model: modelLine, What: fmt.Sprintf("issue keys differ (source %s); projection impl=%s model=%s", src, ip, mp)})
 			}
 			if iv.noIssues() && !mv.noIssues() {
 				// the implementation reports success where the reference semantics finds a violated test (C01, C02)
 				sum.addMismatch("C01", Mismatch{Case: lines[i], Impl: impls[i], Model: modelLine, What: fmt.Sprintf("Parse reported no issue, the reference semantics does; projection impl=%s model=%s", ip, mp)})
 				sum.addMismatch("C02", Mismatch{Case: lines[i], Impl: impls[i], Model: modelLine, What: fmt.Sprintf("Parse reported no issue, the reference semantics does; projection impl=%s model=%s", ip, mp)})
 			}
-			if iv.issueKeys(true, "code,path,dtype", nil) == mv.issueKeys(true, "code,path,dtype", nil) {
-				// the same issues with other messages: the message clause (C11)
+			if iv.issueKeys(true, "code,path", nil) == mv.issueKeys(true, "code,path", nil) {
+				// the same issues described differently (type, message): C11
 				sum.addMismatch("C11", Mismatch{Case: lines[i], Impl: impls[i], Model: modelLine, What: fmt.Sprintf("messages differ; projection impl=%s model=%s", ip, mp)})
 			}
 		}
